@@ -259,9 +259,9 @@ def copy_dir(src, dst):
 
 def torn_points(path, n, v):
     """torn prefixes (bytes that still reach the file) for a write of n bytes"""
-    pts = {1, -1, -(n // 2)}            # negative: counted from the end (lengths of json/pickles vary)
+    pts = {1, -1}                       # negative: counted from the end (lengths of json/pickles vary)
     if path.endswith("func_code.py"):
-        pts |= {len("# first line:"), len("# first line: "), len(HEADER), len(HEADER) + 7}
+        pts |= {-(n // 2), len("# first line:"), len("# first line: "), len(HEADER), len(HEADER) + 7}
     return sorted(p for p in pts if p < n and p != 0 and -p < n)
 
 
